@@ -385,16 +385,29 @@ def run_entry(case, rec):
         built["sc"] = sc
         return sc
 
+    # (runResonaate looks the reader up in resonaate.scenario when called; a module-level import would bind it in resonaate itself)
     keep = rscenario.buildScenarioFromConfigFile
+    keep_top = getattr(resonaate, "buildScenarioFromConfigFile", None)
     rscenario.buildScenarioFromConfigFile = builder
+    if keep_top is not None:
+        resonaate.buildScenarioFromConfigFile = builder
     try:
         try:
             resonaate.runResonaate("harness-built configuration", sim_time_hours=hours)
             raised = None
         except ValueError as err:
             raised = err
+        except Exception:
+            if "sc" not in built:
+                # the entry point did not go through the replaced reader (it tried to open the placeholder path): nothing was exercised
+                raise Skip("runResonaate did not use the replaced configuration-file reader")
+            raise
     finally:
         rscenario.buildScenarioFromConfigFile = keep
+        if keep_top is not None:
+            resonaate.buildScenarioFromConfigFile = keep_top
+    if "sc" not in built:
+        raise Skip("runResonaate did not use the replaced configuration-file reader")
     want = d // dt
     if hours * 3600.0 < d:
         rec.label("hours_times_3600_below_whole_second")
